@@ -19,7 +19,8 @@ LEVEL_TEXT = ('Static decision of the structural necessary conditions: the relin
               'exactly once and nothing else except the two seed ends; every item the library constructs is '
               'Item(Point(GetImage(t)), t); the renewal routine is entered only with the (new, popped) pair of the '
               'selection routine; only the insert routines relink and only the evaluation routine writes a stored item; the first-iteration guard is never re-armed over existing '
-              'data.')
+              'data; the evolvent behind the stored points is not re-configured by the search; setters store what getters '
+              'return.')
 EXPLANATION = ('Path summaries of InsertDataItem / InsertFirstDataItem (accessors inlined) are compared with the '
                'expected post-heap; delta stores in the seeding and renewal routines are normalised and compared '
                'with pow(x_r - x_l, 1/N); event traces of the iteration driver pair EVAL(p) with INSERT(p); writers '
